@@ -154,7 +154,7 @@ UpdateReceived(r) ==
 \* FSM.notification_received / notimsg_version_error
 NotifReceived(r, verErr) ==
    IF verErr
-   THEN CASE r.st \in {"OPENSENT", "OPENCONFIRM"} -> SetSt(CloseConnection(Cancel(r, "cr")), "IDLE")
+   THEN CASE r.st \in {"OPENSENT", "OPENCONFIRM"} -> SetSt(CloseConnection(Cancel(Cancel(Cancel(r, "cr"), "hold"), "ka")), "IDLE")
           [] r.st \in {"CONNECT", "ACTIVE", "ESTABLISHED"} -> ErrorClose(r)
           [] OTHER -> r
    ELSE IF r.st # "IDLE" THEN ErrorClose(r) ELSE r
